@@ -203,7 +203,19 @@ let () =
         if codec = "v2" then v2_seq_ok local remote st0 ms, v2_encode_all st0 ms
         else plain_seq_ok ms, plain_encode_all ms in
       let (full, e) = run codec local remote stream in
-      Printf.printf "%s\twf=%d bytes=%s dec=%s err=%s cuts=%s\n" id (if wf then 1 else 0) (fmt_bytes stream)
+      let kinds =
+        if codec <> "v2" || ms = [] then "-" else begin
+          let b = Buffer.create 16 in
+          let rec go st = function
+            | [] -> ()
+            | m :: r ->
+              (match v2_frame st m with
+               | k :: _ -> Buffer.add_string b (dec_of_n k)
+               | [] -> Buffer.add_char b '?');
+              go (v2_next st m) r in
+          go st0 ms; Buffer.contents b
+        end in
+      Printf.printf "%s\twf=%d kinds=%s bytes=%s dec=%s err=%s cuts=%s\n" id (if wf then 1 else 0) kinds (fmt_bytes stream)
         (fmt_list fmt_msg full) (derr_name e) (run_cuts codec local remote stream full cuts)
     | id :: "R" :: codec :: local :: remote :: payload :: cuts :: _ ->
       let local = n_of_hex local and remote = n_of_hex remote in
